@@ -196,19 +196,23 @@ let do_layout () =
 let g6 (x : Float64.t) : string =
   String.concat "" (List.map (fun b -> String.make 1 (Char.chr (match b with N0 -> 0 | Npos p -> let rec ip = function XH -> 1 | XO q -> 2 * ip q | XI q -> 2 * ip q + 1 in ip p))) (fmt_g6 x))
 let lit_words = function 0 -> "?" | 1 -> "a=" | _ -> "?"
+(* data rows only (as the harness): comment lines, blank lines and the `a= n` block headers are presentation *)
+let is_data_row (r : string list) = match r with
+  | [] -> false
+  | t :: _ -> t <> "" && (float_of_string_opt t <> None || t = "-nan")
 let do_wmem () =
   let id = "M " ^ tok () in
   let n = int () in let k = int () in
   let labels = list_n n tok in
   let m = chunk k (list_n (n * k) flt) in
   let rows = membership_rows ar g6 (fun i -> lit_words (int_of_nat i)) labels m (nat_of_int n) (nat_of_int k) in
-  List.iteri (fun i r -> pr "%s line %d : %s\n" id (i + 1) (String.concat " " r)) rows
+  List.iteri (fun i r -> pr "%s line %d : %s\n" id (i + 1) (String.concat " " r)) (List.filter is_data_row rows)
 let do_wafv () =
   let id = "V " ^ tok () in
   let k = int () in let l = int () in let assort = int () = 1 in
   let aff = list_n (if assort then k * l else k * k * l) flt in
   let rows = affinity_rows ar g6 (fun i -> string_of_int (int_of_nat i)) (fun i -> lit_words (int_of_nat i)) aff (nat_of_int k) (nat_of_int l) in
-  List.iteri (fun i r -> pr "%s line %d :%s\n" id (i + 1) (String.concat "" (List.map (fun t -> " " ^ t) r))) rows
+  List.iteri (fun i r -> pr "%s line %d :%s\n" id (i + 1) (String.concat "" (List.map (fun t -> " " ^ t) r))) (List.filter is_data_row rows)
 
 (* ---------- RESIZE: shape and positions after Tensor::resize on a tensor that held another shape ---------- *)
 let do_resize () =
@@ -232,13 +236,11 @@ let do_waff () =
   let n = nat_of_int in
   let ln = ref 1 in
   for a = 0 to l - 1 do
-    pr "%s line %d : a= %d\n" id !ln a; incr ln;
     for kk = 0 to k - 1 do
       let cells = if assort then [int_of_nat (idx_ass (n k) (n l) (n kk) (n a))]
                   else List.init k (fun q -> int_of_nat (idx_gen (n k) (n l) (n kk) (n q) (n a))) in
       pr "%s line %d : %s\n" id !ln (String.concat " " (List.map string_of_int cells)); incr ln
-    done;
-    pr "%s line %d :\n" id !ln; incr ln
+    done
   done
 
 (* ---------- RNG: the model's mt19937/uniform stream (Mt19937.mt_draws) ---------- *)
